@@ -308,12 +308,16 @@ C11_GracefulRunsOut ==
      /\ (st.stop[j].n >= 1 /\ st.stop[j].duringShut) => (st.ack[j].n > 0 \/ \E t \in TaskIds(j) : FailedHard(j, t))
      /\ ~st.jobs[j].started => st.jobs[j].canceled
 
+\* after the deadline every job that is still executing has been told to stop (at the latest by the next quiescent moment)
+C11_ForcedStops ==
+  (Quiet /\ st.forced /\ st.shut # "no") => \A j \in J : (st.jobs[j].listed /\ Executing(st, j)) => st.stop[j].n >= 1
+
 C11_ForcedCancels ==
   (ShutRet /\ st.forced) => \A j \in J : (st.jobs[j].listed /\ st.jobs[j].started /\ Plain(st, j)) =>
      \A t \in TaskIds(j) : Run(j, t).begun = 1 /\ OkFor(j, t)
 
 C11_PersistWithinInterval ==
-  (Quiet /\ st.phase = "run" /\ st.idle >= 3100) => StoreAgrees
+  (Quiet /\ st.phase = "run" /\ st.idle >= 3500) => StoreAgrees
 
 -----------------------------------------------------------------------------
 (* C12 - retention.  Removed: reported before the step and not after it. *)
